@@ -84,7 +84,7 @@ CHECKS = {
    "EINTR on reads not injected; loopback TCP with a harness peer; NaN payloads compared raw.",
    "deterministic simulation: syscall seam (short reads/writes at link-time-interposed read/recv/write) x seeded delivery schedules, identity oracle", "5/C14"),
  "C17": ("iosim", "fault_enumeration",
-   "Enumerated: 3 modes x 6 initial states (incl. content that is not a whole number of samples) x 3 sinks (FileSink<u8>, NoCopyFileSink, FileSink<Float>) against the documented truth table. Seeded: a re-exec'd child streams data through the sink; the fault plan kills it (SIGKILL) at the N-th write() on the sink after a torn prefix of k bytes, or injects short writes / one EINTR / ENOSPC / EIO (4-8 KiB streams; one run in 30 a default-size stream fed more than 1 MiB); after every work() the child records how much was consumed. Parent oracle: file is a prefix of (old content +) serialised stream and contains at least everything acknowledged; complete when not killed.",
+   "Enumerated: 3 modes x 7 initial states (incl. content that is not a whole number of samples, and a dangling symbolic link) x 3 sinks (FileSink<u8>, NoCopyFileSink, FileSink<Float>) against the documented truth table. Seeded: a re-exec'd child streams data through the sink; the fault plan kills it (SIGKILL) at the N-th write() on the sink after a torn prefix of k bytes, or injects short writes / one EINTR / ENOSPC / EIO (4-8 KiB streams; one run in 30 a default-size stream fed more than 1 MiB); after every work() the child records how much was consumed. Parent oracle: file is a prefix of (old content +) serialised stream and contains at least everything acknowledged; complete when not killed.",
    "Process death, not power loss. 'Unwritable' realised as missing parent / directory (root ignores mode bits).",
    "deterministic simulation: crash injection at every write boundary with torn writes (child process), short writes, EINTR; prefix + acknowledged-durability oracle", "5/C17"),
  "C18": ("iosim", "fault_enumeration",
